@@ -331,6 +331,7 @@ Lemma parse_envelope_unfold env custom :
   let r2 := skipn (2 + N.to_nat asz) r1 in
   if nlen r2 <? 6 then None else
   let csz := from_bytes_le (firstn 4 (skipn 2 r2)) in
+  if nlen (skipn 6 r2) <? csz then None else
   let cdata := firstn (N.to_nat csz) (skipn 6 r2) in
   if negb (nlen cdata =? csz) then None else
   let tail := skipn (6 + N.to_nat csz) r2 in
@@ -443,7 +444,10 @@ Proof.
   { apply (after_prefix (le_bytes 2 ty ++ le_bytes 4 (nlen certdata))).
     - unfold R2. rewrite <- app_assoc. reflexivity.
     - rewrite app_length, !le_bytes_length. reflexivity. }
-  rewrite G5, firstn_app_exact, N.eqb_refl. cbn [negb].
+  rewrite G5.
+  assert (L3 : (nlen (certdata ++ custom) <? nlen certdata) = false).
+  { unfold nlen. rewrite app_length. lia. }
+  rewrite L3, firstn_app_exact, N.eqb_refl. cbn [negb].
   assert (G6 : skipn (6 + length certdata) R2 = custom).
   { apply (after_prefix (le_bytes 2 ty ++ le_bytes 4 (nlen certdata) ++ certdata)).
     - unfold R2. rewrite <- !app_assoc. reflexivity.
@@ -488,6 +492,7 @@ Proof.
   replace (1014 + N.to_nat asz + 2)%nat with (1016 + N.to_nat asz)%nat by lia.
   set (csz := from_bytes_le (firstn 4 (skipn (1016 + N.to_nat asz) env))).
   replace (1014 + N.to_nat asz + 6)%nat with (1020 + N.to_nat asz)%nat by lia.
+  destruct (nlen (skipn (1020 + N.to_nat asz) env) <? csz) eqn:L3'; [discriminate|].
   destruct (nlen (firstn (N.to_nat csz) (skipn (1020 + N.to_nat asz) env)) =? csz) eqn:L4;
     cbn [negb]; [|discriminate].
   replace (1014 + N.to_nat asz + (6 + N.to_nat csz))%nat
@@ -989,25 +994,27 @@ Record sgx_wf (e : envelope) : Prop := {
 }.
 
 Lemma sgx_elems_v2 e c0 c1 :
-  sgx_wf e -> en_auth e <> [] ->
+  sgx_wf e ->
   b64_norm (b64_of_pem c0) = Some (b64_of_pem c0) ->
   b64_norm (b64_of_pem c1) = Some (b64_of_pem c1) ->
   key_norm (hex (4 :: en_attkey e)) = Some (hex (4 :: en_attkey e)) ->
   Forall (fun x => v2_elem b64_norm x /\ v2_stable b64_norm key_norm x)
          [el_quote e; el_att e; el_qe c0; el_pca c1].
 Proof.
-  intros [W1 N1 W2 L2 W3 N3 W4 L4 W5 L5 W6 W7] Na B0 B1 Kn.
+  intros [W1 N1 W2 L2 W3 N3 W4 L4 W5 L5 W6 W7] B0 B1 Kn.
   destruct (wf_sigencode_der _ W2 L2) as [S1 S1n].
   destruct (wf_sigencode_der _ W5 L5) as [S2 S2n].
-  repeat constructor; cbn [ce_kind ce_message ce_signature ce_extra1 ce_extra2 ce_tweak
-                           el_quote el_att el_qe el_pca v2_stable].
+  repeat (first [apply Forall_cons | apply Forall_nil | split]);
+    cbn [ce_kind ce_message ce_signature ce_extra1 ce_extra2 ce_tweak
+         el_quote el_att el_qe el_pca v2_stable].
   - apply canonical_hex; assumption.
   - apply canonical_hex; assumption.
   - apply canonical_hex; assumption.
   - apply canonical_hex; [assumption|]. intro H. rewrite H in L4. discriminate.
   - apply canonical_hex; assumption.
   - apply canonical_hex; [|discriminate]. constructor; [lia|assumption].
-  - apply canonical_hex; assumption.
+  - destruct (en_auth e) as [|x r] eqn:Ea; [right; reflexivity|].
+    left. apply canonical_hex; [assumption|discriminate].
   - exists (en_qe_body e). split; [apply c_fromhex_hex; assumption|assumption].
   - exact Kn.
   - exists (b64_of_pem c0). exact B0.
@@ -1039,17 +1046,17 @@ Qed.
 
 (* The certificate written by the attestation command loads back to the very same
    certificate (same targets, same elements under the same names), hence validates
-   identically for every oracle.  QE auth data must not be empty: see below. *)
+   identically for every oracle.  QE auth data may be empty (0..n bytes). *)
 Theorem sgx_file_roundtrip e els :
   sgx_elements b64_of_pem e = Some els ->
-  sgx_wf e -> en_auth e <> [] ->
+  sgx_wf e ->
   (forall c, b64_norm (b64_of_pem c) = Some (b64_of_pem c)) ->
   key_norm (hex (4 :: en_attkey e)) = Some (hex (4 :: en_attkey e)) ->
   exists j, cert_to_json key_norm (sgx_cert els) = Some j /\
             load_cert b64_norm j = LOk (sgx_cert els).
 Proof.
-  intros He Hw Ha Hb Hk. apply sgx_elements_iff in He. destruct He as (c0 & c1 & rest & _ & ->).
-  pose proof (sgx_elems_v2 e c0 c1 Hw Ha (Hb c0) (Hb c1) Hk) as Hel.
+  intros He Hw Hb Hk. apply sgx_elements_iff in He. destruct He as (c0 & c1 & rest & _ & ->).
+  pose proof (sgx_elems_v2 e c0 c1 Hw (Hb c0) (Hb c1) Hk) as Hel.
   destruct (sgx_table_facts e c0 c1) as (Hren & Huniq & Hct & Hkeyed).
   unfold sgx_cert, cert_of. cbn [map].
   set (t := table_of _) in *.
@@ -1081,56 +1088,36 @@ Qed.
 
 Corollary sgx_file_validates_identically e els j c' :
   sgx_elements b64_of_pem e = Some els ->
-  sgx_wf e -> en_auth e <> [] ->
+  sgx_wf e ->
   (forall c, b64_norm (b64_of_pem c) = Some (b64_of_pem c)) ->
   key_norm (hex (4 :: en_attkey e)) = Some (hex (4 :: en_attkey e)) ->
   cert_to_json key_norm (sgx_cert els) = Some j -> load_cert b64_norm j = LOk c' ->
   c' = sgx_cert els /\
   forall link tg, validate_target link c' tg = validate_target link (sgx_cert els) tg.
 Proof.
-  intros He Hw Ha Hb Hk Hj Hl.
-  destruct (sgx_file_roundtrip e els He Hw Ha Hb Hk) as (j' & Hj' & Hl').
+  intros He Hw Hb Hk Hj Hl.
+  destruct (sgx_file_roundtrip e els He Hw Hb Hk) as (j' & Hj' & Hl').
   rewrite Hj in Hj'. inversion Hj'; subst j'. rewrite Hl in Hl'. inversion Hl'; subst c'.
   split; reflexivity.
 Qed.
 
-(* MODEL/PROPERTY PROBLEM.  With empty QE auth data (0 bytes, inside the property's range) the
-   attestation-key element carries "auth_data": "", which the element factory refuses: the
-   saved certificate does not load.  (In the Python code the same check sits in the element
-   constructor, so gathering itself raises ValueError; Model.Gather.sgx_elements does not
-   model that check.) *)
-Theorem sgx_empty_auth_not_loadable e els j :
+(* Empty QE auth data (0 bytes, inside the property's range): the attestation-key element
+   carries "auth_data": "", which the element factory accepts (since fix 36570d0; before it
+   the saved certificate did not load); the certificate loads back unchanged. *)
+Corollary sgx_empty_auth_loadable e els :
   sgx_elements b64_of_pem e = Some els -> en_auth e = [] ->
-  cert_to_json key_norm (sgx_cert els) = Some j -> load_cert b64_norm j = LError.
+  sgx_wf e ->
+  (forall c, b64_norm (b64_of_pem c) = Some (b64_of_pem c)) ->
+  key_norm (hex (4 :: en_attkey e)) = Some (hex (4 :: en_attkey e)) ->
+  exists j, cert_to_json key_norm (sgx_cert els) = Some j /\
+            load_cert b64_norm j = LOk (sgx_cert els) /\
+            exists att, nth_error els 1 = Some att /\ ce_extra2 att = [].
 Proof.
-  intros He Ha. apply sgx_elements_iff in He. destruct He as (c0 & c1 & rest & _ & ->).
-  unfold sgx_cert, cert_of, cert_to_json. cbn [map c_elems c_version c_targets].
-  rewrite sgx_table. cbn [map snd all_some].
-  destruct (elem_to_json key_norm (el_quote e)) as [jq|]; [|discriminate].
-  destruct (elem_to_json key_norm (el_att e)) as [ja|] eqn:Eja; [|discriminate].
-  destruct (elem_to_json key_norm (el_qe c0)) as [jqe|]; [|discriminate].
-  destruct (elem_to_json key_norm (el_pca c1)) as [jp|]; [|discriminate].
-  intro H. inversion H; subst j. clear H.
-  unfold load_cert. change (jget (s "version") _) with (Some (JInt 2)).
-  cbn [hashable negb py_eq_int Z.eqb Pos.eqb].
-  apply (parse_rejects_element b64_norm 2 _ [JStr (s "quote")] [jq; ja; jqe; jp] ja);
-    [reflexivity|reflexivity|right; left; reflexivity|].
-  unfold elem_to_json, el_att in Eja. cbn [ce_kind ce_message ce_extra1 ce_extra2 ce_name
-    ce_signature ce_signed_by] in Eja. rewrite Ha in Eja.
-  destruct (fromhex (hex (en_qe_body e))) as [mb|]; [|discriminate].
-  destruct (key_norm (hex (4 :: en_attkey e))) as [k|]; [|discriminate].
-  destruct (Nat.ltb (length mb) 384); [discriminate|]. inversion Eja; subst ja. clear Eja.
-  generalize (hex (firstn 384 mb)), k, (hex (sigencode_der (en_qe_sig e))). intros m1 k1 s1.
-  unfold factory_of. cbn [Z.eqb Pos.eqb]. unfold elem_v2.
-  change (jget (s "type") _) with (Some (JStr (s "sgx_attestation_key"))). cbv iota beta.
-  change (str_in (s "sgx_attestation_key") CERT_V2_TYPES) with true. cbn [negb].
-  change (jget (s "name") _) with (Some (JStr (s "attestation"))).
-  change (jget (s "signed_by") _) with (Some (JStr (s "quoting_enclave"))). cbv iota beta.
-  change (str_eqb (s "sgx_attestation_key") (s "sgx_quote")) with false.
-  change (str_eqb (s "sgx_attestation_key") (s "sgx_attestation_key")) with true. cbv iota.
-  change (jget (s "auth_data") _) with (Some (JStr (hex []))).
-  change (nonempty_hex_json (Some (JStr (hex [])))) with (@None str).
-  destruct (nonempty_hex_json _); [|reflexivity]. destruct (nonempty_hex_json _); reflexivity.
+  intros He Ha Hw Hb Hk.
+  destruct (sgx_file_roundtrip e els He Hw Hb Hk) as (j & Hj & Hl).
+  exists j. split; [exact Hj|]. split; [exact Hl|].
+  apply sgx_elements_iff in He. destruct He as (c0 & c1 & rest & _ & ->).
+  exists (el_att e). split; [reflexivity|]. cbn [el_att ce_extra2]. rewrite Ha. reflexivity.
 Qed.
 End Sgx.
 
@@ -1792,6 +1779,15 @@ Example genuine_device_verifies :
   = Some (mkSg kh (repeat 7 32) (repeat 9 32) (powhsm_of t_custom))
   /\ pm_timestamp (powhsm_of t_custom) = 256 /\ pm_platform (powhsm_of t_custom) = s "sgx".
 Proof. vm_compute. repeat split; reflexivity. Qed.
+
+(* the same device with empty QE auth data (0 bytes): gathered, saved, loaded, verified *)
+Definition t_qeb0 : bytes := repeat 3 320 ++ toy_hash (t_attkey ++ []) ++ repeat 3 32.
+Definition t_env0 : bytes :=
+  mk_envelope t_quote [64; 2; 0; 0] t_sigq t_attkey t_qeb0 (toy_sign [2] (toy_hash t_qeb0)) [] 5
+              t_cd t_custom.
+Example genuine_device_empty_auth_verifies :
+  run t_custom t_env0 = Some (mkSg kh (repeat 7 32) (repeat 9 32) (powhsm_of t_custom)).
+Proof. vm_compute. reflexivity. Qed.
 
 Fixpoint set_nth (i : nat) (v : N) (l : bytes) : bytes :=
   match l, i with
